@@ -57,7 +57,7 @@ var realStub = map[string]interface{}{
 	"stubbed":   []string{"storage: simdisk replaces leveldb/storage file_storage.go and the OS (durability model of DESIGN.md §2.3)", "Go scheduler and select choice: verif/simrt seeded scheduler", "sync.Mutex/RWMutex/WaitGroup/Once/Pool: simrt equivalents", "wall clock/timers: testing/synctest fake clock", "finalizers: removed", "global math/rand: seeded"},
 }
 
-func writeEvidence(prop, tier string, seed uint64, a *WorkerOut, wall time.Duration, nviol, workers, detChecked int) {
+func writeEvidence(prop, tier string, seed uint64, a *WorkerOut, wall time.Duration, nviol, workers, detChecked, quota, handedOut int) {
 	info := propInfo[prop]
 	distinct := map[uint64]bool{}
 	for _, h := range a.Hashes {
@@ -99,6 +99,15 @@ func writeEvidence(prop, tier string, seed uint64, a *WorkerOut, wall time.Durat
 		"determinism_rechecked_seeds": detChecked,
 		"components":                  componentsFor(prop),
 		"exhaustive":                  false,
+	}
+	if quota > 0 {
+		// quick: a fixed set of seeds, so the counts above are the same on any
+		// machine; only wall_s and the per-hour rates depend on its speed
+		cov["seed_quota"] = quota
+		cov["seed_quota_completed"] = a.Runs >= quota
+		cov["seed_range"] = fmt.Sprintf("VERIF_SEED*1000003 + [0,%d)", handedOut)
+	} else {
+		cov["wall_budget_mode"] = true
 	}
 	ev := map[string]interface{}{
 		"property_id": prop,
